@@ -257,6 +257,60 @@ pub enum G {
     Not(Box<G>),
 }
 
+/// Visit every variable name bound by the pattern.
+pub fn visit_names_p(p: &mut P, f: &mut dyn FnMut(&mut String)) {
+    match p {
+        P::Bind(n) => f(n),
+        P::At(n, sub) => {
+            f(n);
+            visit_names_p(sub, f)
+        }
+        P::Or(v) => v.iter_mut().for_each(|x| visit_names_p(x, f)),
+        P::Some(x) | P::EB(x) => visit_names_p(x, f),
+        P::Pair(a, b) => {
+            visit_names_p(a, f);
+            visit_names_p(b, f)
+        }
+        P::EC(a, b) | P::S(a, b) => {
+            if let Some(a) = a {
+                visit_names_p(a, f)
+            }
+            if let Some(b) = b {
+                visit_names_p(b, f)
+            }
+        }
+        P::Slice(pre, rest, suf) => {
+            pre.iter_mut().for_each(|x| visit_names_p(x, f));
+            if let Some(Some(n)) = rest {
+                f(n)
+            }
+            suf.iter_mut().for_each(|x| visit_names_p(x, f));
+        }
+        _ => {}
+    }
+}
+
+/// Visit every variable name used by the guard.
+pub fn visit_names_g(g: &mut G, f: &mut dyn FnMut(&mut String)) {
+    match g {
+        G::True => {}
+        G::CmpConst(v, _, _) | G::LenCmp(v, _, _) | G::BoolVar(v, _) => f(v),
+        G::CmpVars(a, _, b) => {
+            f(a);
+            f(b)
+        }
+        G::And(a, b) | G::Or(a, b) => {
+            visit_names_g(a, f);
+            visit_names_g(b, f)
+        }
+        G::Not(a) => visit_names_g(a, f),
+    }
+}
+
+/// Names a user may well choose that coincide with identifiers the macro generates itself
+/// (closure parameters a<i>, eq!/ne! locals l<n>, the mismatch reporter, the matching handle).
+pub const MACRO_LIKE_NAMES: [&str; 10] = ["a0", "a1", "a2", "l0", "l1", "reporter", "_m", "a3", "l2", "input"];
+
 pub type Env = BTreeMap<String, Val>;
 
 pub fn str_of(v: &Val) -> &str {
